@@ -72,6 +72,59 @@ pub fn tokens(kind: &str) -> Vec<&'static [u8]> {
     t
 }
 
+/// Well-formed documents of about 50 KiB (more than three default chunks) with changing line
+/// lengths, comments, CRLF lines and split clauses.
+pub fn long_docs(kind: &str) -> Vec<Doc> {
+    let mut body = Vec::new();
+    let mut n = 0usize;
+    let mut i = 0usize;
+    while body.len() < 50_000 {
+        i += 1;
+        let (a, b, c) = (i % 9000 + 1, (i * 7) % 9000 + 1, (i * 13) % 9000 + 1);
+        let eol = if i % 70 == 0 { "\r\n" } else { "\n" };
+        let line = match kind {
+            "cnf" => format!("{a} -{b} {c} 0{eol}"),
+            "wcnf" => format!("{} {a} -{b} 0{eol}", i % 97 + 1),
+            "gcnf" => format!("{{{}}} {a} -{b} 0{eol}", i % 8),
+            _ => format!("v {a} -{b} {c}{eol}"),
+        };
+        body.extend_from_slice(line.as_bytes());
+        n += 1;
+        if i % 50 == 0 {
+            body.extend_from_slice(format!("c comment number {i} {}\n", "x".repeat(i % 41)).as_bytes());
+        }
+        if i % 90 == 0 && kind != "log" {
+            // a clause split over three lines
+            let pre = match kind {
+                "wcnf" => "5 ",
+                "gcnf" => "{3} ",
+                _ => "",
+            };
+            body.extend_from_slice(format!("{pre}{a}\n  -{b}\n\t0\n").as_bytes());
+            n += 1;
+        }
+    }
+    let mut doc = match kind {
+        "cnf" => format!("c long\np cnf 9001 {n}\n").into_bytes(),
+        "wcnf" => format!("p wcnf 9001 {n} 100\n").into_bytes(),
+        "gcnf" => format!("p gcnf 9001 {n} 7\n").into_bytes(),
+        _ => b"c long\ns SATISFIABLE\n".to_vec(),
+    };
+    doc.extend_from_slice(&body);
+    if kind == "log" {
+        doc.extend_from_slice(b"v 0\n");
+    }
+    let mut headerless = body.clone();
+    if kind == "log" {
+        headerless.extend_from_slice(b"v 0\n");
+    }
+    // a corrupted copy: garbage two thirds into the document
+    let mut bad = doc.clone();
+    let k = bad.len() * 2 / 3;
+    bad[k] = b'x';
+    vec![Doc::new(format!("^{kind}:long"), doc), Doc::new(format!("^{kind}:long-headerless"), headerless), Doc::new(format!("^{kind}:long-corrupted"), bad)]
+}
+
 pub struct Inputs {
     pub corpus: Vec<Doc>,
     pub neighbours: Vec<Doc>,
@@ -117,6 +170,7 @@ pub fn inputs_seq(kind: &str, tier: Tier, seq_len: usize) -> Inputs {
         "gcnf" => nb.extend(comment_byte_docs(kind, b"p gcnf 1 1 1\n{1} 1\nc ", b"0\n")),
         _ => nb.extend(comment_byte_docs(kind, b"c ", b"s SATISFIABLE\n")),
     }
+    nb.extend(long_docs(kind));
     let sequences = dedup_docs(token_sequences(&tokens(kind), seq_len));
     // all short strings over a 10-symbol alphabet (arbitrary inputs)
     let mut sequences = sequences;
